@@ -20,8 +20,32 @@ claim("C15", "other", SA+"call-graph-derived set of I/O-reaching callees, discar
 claim("C19", "other", SA+"interval-set evaluation of the magic dispatch, edge-deletion reachability for the header acceptance gate, bit-provenance of descriptor accessors",
       "Decides symbolically, for the whole 2^25 header space, which first words and which descriptors the header parser can accept: exact value sets of the magic dispatch, check-byte and block-size gates on every accepting path, accessor bit layout, ValidFrameHeader outcome classes, content-size provenance. The numeric value of XXH32 is not evaluated (C13).",
       "DESIGN.md section 4, C19")
+claim("C07", "other", SA+"SCC search on the VTA call graph for input-driven recursion, interval-set evaluation of the magic dispatch, guard dominance for the block-size check, provenance of allocation sizes, shutdown-protocol must-pass rules, error-absorption walk",
+      "Decides the shape-visible clauses of safe termination on arbitrary input: no recursion whose depth the input controls, exact magic dispatch, block size checked against the pooled buffer before use, no input-sized allocation, Get total, reader goroutines always shut down, failures always surface. Liveness under all schedules and decoder panics (C03) are not decided here.",
+      "DESIGN.md section 4, C07")
+claim("C12", "other", "static analysis: exhaustive build-constraint evaluation with go/build's matcher; use analysis of the decoder result in go/ssa; immediates of the assembly result stores",
+      "Decides that exactly one decoder implementation is selected in every build configuration and that error codes of the two implementations are unobservable (sign only); shared numeric postconditions are added by the bounds prover. Equality of decoded bytes is not decided.",
+      "DESIGN.md section 4, C12")
+claim("C13", "other", SA+"field-width and store-shape rules for the running length, canonical expression trees matched against the XXH32 specification's constants per phase, linear normal form of the buffering guard; build-constraint evaluation",
+      "Decides the structure in which XXH32 implementations go wrong: full-width length in the formula choice, length bookkeeping, primes/rotations/multipliers per phase in the streaming and one-shot code, lane seeds, avalanche order, buffer-full discipline, one definition per build configuration. Equality with the reference for all inputs is not decided.",
+      "DESIGN.md section 4, C13")
+claim("C14", "other", SA+"must-pass-through of table resets before table accesses, guard-exactness of the HC reset, reachability scan for nondeterminism sources, who-may-call for sink writes",
+      "Decides absence of hidden state and scheduling influence in the shape of the code: resets dominate all table accesses, the HC reset flag is unconditional and single-writer, no nondeterministic construct is reachable from the compressors, ordered hand-off, single sink writer, block boundaries independent of Write partitioning on the zero-copy path. Value-level independence from stale buffers is not decided.",
+      "DESIGN.md section 4, C14")
+claim("C16", "other", SA+"path rule for sequential fallback, provenance of the dictionary argument, shape and constants of the window trim (suffix slice, W >= 65535), guard exactness of the append",
+      "Decides that dependent frames decode sequentially with the rolling dictionary reaching the block decoder, and that the window update keeps a suffix of at least 65535 bytes of history and includes raw blocks. Exact decoded bytes are not decided.",
+      "DESIGN.md section 4, C16")
+claim("C17", "other", SA+"transition tables read from the initialiser; per-method value sets of the state word at unhandled-state exits; must-pass transitions; who-may-write option fields; reset rules",
+      "Decides dispatch totality per reachable state, terminal transitions, persistence of options (only Option closures write them), Reset re-arming, latch clearing, sentinel liveness and data call order. Known findings F09, F17b, F19, F23 are reported. Emitted bytes per sequence are not decided.",
+      "DESIGN.md section 4, C17")
+claim("C18", "other", SA+"edge deletion for identity classification of the source error, error-absorption walk, field value-set tracking of the crState, pairing rule in the overflow writer",
+      "Decides the lifecycle and error structure of the compressing reader: trailer exactly at the Reading->Flushing transition, source errors passed through unless identical to io.EOF/io.ErrUnexpectedEOF, io.EOF only when drained, no unhandled state, overflow rewind paired with truncation. Byte-exact equality with the Writer's frame and n <= len(p) as a number are not decided.",
+      "DESIGN.md section 4, C18")
+claim("C20", "other", SA+"analysis of cmd/lz4c type-checked against the tree (scratch module): flag-to-option dataflow with polarity, value sets of the level switch, load sites of flag variables, mode-argument provenance, client typestate over the Writer/Reader lifecycle",
+      "Decides that each compress flag reaches the option its usage names with the stated polarity and after parsing, that the configured Writer is the one used, that output files get exactly the input's mode, and that Apply is only called in an accepting state (known finding F24: multi-file compress). The file round trip itself is not decided.",
+      "DESIGN.md section 4, C20")
 na("C01", "value-level equality decompress(compress(x)) == x over all byte strings depends on hash-table contents and match arithmetic that no sound static argument in reach can follow; its structural necessary conditions (offsets inside the window, literals flushed to the end, destination contract) are decided under C10 and C11")
 for i in range(1, 21):
     id = "C%02d" % i
     if id not in CLAIMED and id not in NA:
-        na(id, "check under construction in this session (rules planned in DESIGN.md section 4)")
+        na(id, "needs the bounds prover (template-polyhedra engine), under construction in this session; planned rules in DESIGN.md section 4")
